@@ -46,6 +46,20 @@ known('C10', 'G3', 'mesh.SphericalGrid3D._getCellVolumes[theta-weighted-by-dthet
       "geometric shell-sector volume (the total over theta in [0,pi] is right, per cell and for partial theta ranges it is not). Not repaired: "
       "tests/test_cell_volumes.py::test_spherical_grid_3d_slice_uneven pins the current value (expected 0.8 of the ball for theta in [0.1pi,0.9pi]).")
 
+PER = ("On a periodic axis whose first and last cells differ in size, the wrapped ghost values written by cellValuesWithBoundaries* "
+       "(plain copies of the opposite end) do not satisfy the high-side periodic row of boundaryConditionsTerm*, which encodes slope "
+       "continuity with the ratio dx_end/dx_1; the two agree exactly when the end cells are equal. After solvePDE the re-applied ghost "
+       "layer therefore differs from the solved one on such grids. Not repaired: making the rows plain copies breaks flux conservation "
+       "across the seam (C01), making the ghosts solve the rows changes six functions and loses the copy semantics; no minimal patch.")
+for cons in ['boundaryConditionsTerm1D/face=right', 'boundaryConditionsTerm2D/face=right', 'boundaryConditionsTerm2D/face=top',
+             'boundaryConditionsTerm3D/face=right', 'boundaryConditionsTerm3D/face=top', 'boundaryConditionsTerm3D/face=front',
+             'boundaryConditionsTermCylindrical3D/face=top', 'boundaryConditionsTermCylindrical3D/face=front',
+             'boundaryConditionsTermPolar2D/face=top', 'boundaryConditionsTermSpherical3D/face=top', 'boundaryConditionsTermSpherical3D/face=front']:
+    known('C03', 'B3', 'boundary.' + cons + '[consistent-only-for-equal-end-cells]', PER)
+fixed('C03', 'select the periodic or Robin ghost values of the back/front', 'B3/B4 cellValuesWithBoundaries3D/Cylindrical3D/Spherical3D: z-block guarded by the bottom/top periodic flags')
+fixed('C05', 'forwards the optional u_upwind', 'E3u convectionUpwindTerm dispatcher drops u_upwind on 6 of 9 classes')
+fixed('C11', 'harmonicMean returns 0', 'W8 harmonicMean 2D/3D: 0/0 = nan for two adjacent zeros')
+
 exec(open(os.path.join(os.path.dirname(__file__), 'known_more.py')).read()) if os.path.exists(os.path.join(os.path.dirname(__file__), 'known_more.py')) else None
 json.dump(dict(findings=f), open('/verif/known_findings.json', 'w'), indent=1)
 print(len(f), 'entries')
